@@ -25,7 +25,7 @@ TYPES = {
     "u128": (["340282366920938463463374607431768211455"], "340282366920938463463374607431768211456", "18446744073709551616", "7", "7", "0"),
     "f64": (["1e3", "inf"], "1e", "0.1", "2.5e-3", "0.0025", "0.0"),
     "usize": (["0"], "-1", "42", "usize::MAX", "18446744073709551615", "0"),
-    "i64": (["-9223372036854775808"], "9223372036854775808", "-1", "i64::MIN", "-9223372036854775808", "0"),
+    "i64": (["9223372036854775807"], "9223372036854775808", "-1", "i64::MIN", "-9223372036854775808", "0"),
 }
 OPTS = ["required", "option", "default_value", "default_value_t_expr", "default_value_t"]
 NAMINGS = ["short", "long", "both", "short_custom", "long_custom", "both_custom", "short_gen_long_custom", "short_custom_long_gen"]
@@ -449,6 +449,29 @@ def build_set(which):
         Cmd("Show", [Field("help", "flag", "bool", "required", naming="long_help"), Field("what", "positional", "&str", "option")], name="show"),
         Cmd("Hx", [Field("hex", "flag", "bool", "required", naming="short"), Field("level", "option", "u8", "option", naming="short_h_long_gen")], name="hx"),
     ]))
+
+    # ---------------- rich variants: five fields (two positionals, a required option declared after them, a flag,
+    # an optional option); options of wide types in front of an optional sub-command
+    add(Enum("PR0", [
+        Cmd("Copy", [
+            Field("source", "positional", "&str", "required", doc="Where from"),
+            Field("target", "positional", "&str", "required"),
+            Field("count", "option", "i64", "required", naming="both", doc="How many"),
+            Field("force", "flag", "bool", "required", naming="long"),
+            Field("label", "option", "&str", "option", naming="short"),
+        ], doc=DOCS[2], name="copy"),
+        Cmd("Net", [
+            Field("iface", "option", "&str", "default_value", naming="long", doc="Interface"),
+            Field("verbose", "flag", "bool", "required", naming="short"),
+            Field("mtu", "option", "u128", "option", naming="both"),
+        ], sub=Sub("SubA", "cmd", optional=True), doc=DOCS[1], name="net"),
+        Cmd("Calib", [
+            Field("gain", "positional", "f64", "required"),
+            Field("offset", "positional", "i8", "default_value"),
+            Field("samples", "option", "usize", "default_value_t_expr", naming="both"),
+            Field("dry_run", "flag", "bool", "required", naming="both"),
+        ], name="calib"),
+    ], help_title="Rich"))
 
     # ---------------- doc-comment shapes
     if which != "c16":
